@@ -39,6 +39,7 @@ THEOREMS = [
     "BeyondVerif.C10.light_value_pm_one",
     "BeyondVerif.C10.umbra_inside_penumbra",
     "BeyondVerif.C10.light_geometry",
+    "BeyondVerif.C10.light_frame_independent",
     "BeyondVerif.C10.passes_spec",
     "BeyondVerif.C10.stationKinds_spec",
     "BeyondVerif.Listen.bisect2_eq_wf",
@@ -76,8 +77,9 @@ TRUSTED = [
     "harness/props/C10.py translate_listeners: Python AST of listeners.py (`__call__`, `check`, `info`, `event` class and its bases of each listener class, `stations_listeners`) -> Generated/ListenSrc.lean",
     "correspondence harness: stub orbit/station/propagator/ephemeris classes (subclasses of the real AnalyticalPropagator, Ephem, LightListener, TerminatorListener; the real "
     "TopocentricFrame.visibility called on a stub station) whose spherical components are integer polynomials of the date; exact comparison of (date in us, listener index, label) streams",
-    "harness/props/C10.py translate_light (+ harness/py2lean.py Tr.expr): LightListener.__call__ from `alpha_umb = …` on -> Generated/LightSrc{F,R}.lean; the seven assignments before it "
-    "(Sun position, frame change, norms) are checked textually against LIGHT_PREAMBLE and replicated by light_inputs",
+    "harness/props/C10.py translate_light (+ harness/py2lean.py Tr.expr): LightListener.__call__ from `alpha_umb = …` on -> Generated/LightSrc{F,R}.lean; of the assignments before it, those selecting the frame "
+    "(`sun_orb`, `orb`, `frame`) are matched against the recognised forms LIGHT_FRAME_RULES and become `Generated.ListenSrc.lightFrameIfNone`, the others (Sun object, positions, norms) are "
+    "checked textually against LIGHT_PREAMBLE; light_inputs replicates them",
     "CPython datetime: `timedelta / 2` rounds half to even on microseconds; `Date + timedelta` and `Date - Date` are exact on the microsecond grid within one day of the epoch used (checked by the correspondence itself)",
 ]
 ASSUMPTIONS = [
@@ -92,14 +94,15 @@ ASSUMPTIONS = [
 ]
 NOT_COVERED = [
     "closed-form node / apsis / anomaly times, umbra/penumbra event dates vs an independent apparent-disc computation, zero elevation at AOS/LOS and zero elevation rate at MAX: numerical, oracle only (S)",
-    "LightListener: the Sun ephemeris, the frame change and the norms / dot product feeding the translated formulas (first seven assignments of __call__) are outside the model; the theorems over the reals "
-    "are tied to the float code by exact agreement of the +-1 value on sampled geometries (incl. positions within 1 mm of the real shadow boundary) only",
-    "labels of NodeListener, StationSignalListener, TerminatorListener come from a derivative component independent of the watched quantity: agreement with the crossing direction is checked by the oracle only",
-    "Date.range / DateRange (how the sample sequence is produced) belongs to C03/C08; the model takes the sample sequence as given",
-    "NumericalPropagator: its internal interpolating Ephem is the Speaker; sharpness there is not re-evaluated by the oracle (order, soundness, completeness, labels are)",
-    "a caller that itself re-frames the yielded state objects in place between two steps of a plain iter() (not visibility) changes what frame=None listeners read: outside the model (the model's states keep their frame)",
+    "LightListener: the Sun ephemeris and the library's frame conversions themselves (C02 / C18) are outside the model: the model takes frames as isometries with an origin "
+    "(light_frame_independent) and the norms / dot product as given (light_geometry); it is tied to the float code by exact agreement of the +-1 value on sampled geometries "
+    "(positions within 1 mm of the real shadow boundary; the same state handed over in ITRF / TEME / EME2000 / a station frame) only",
+    "LightListener with an EXPLICIT frame whose origin is not the body's centre: outside light_frame_independent (hypothesis F.o = 0) and false of the code — open finding "
+    "C10-light-explicit-noncentral-frame, oracle family shadow-frame:explicit-noncentral",
 ]
 OPEN = [
+    "shadow clauses for a listener created with an explicit frame that is not centred on the body (LightListener(frame=station)): FALSE of the current code, the cone is built around the origin of that frame "
+    "(known finding C10-light-explicit-noncentral-frame, proposed_fixes/C10-light-explicit-noncentral-frame.diff); light_frame_independent is proved for frame=None and body-centred frames",
     "penumbra clause (entries / exits agree with the conical shadow within 0.5 s) is FALSE of the current code: LightListener uses sin(alpha) = (R_sun - R_body)/d for the penumbra cone too "
     "(light_geometry states the predicate the code computes; kernel-checked counter-witness C10W.penumbra_half_angle_witness on the formulas translated from the source; "
     "known finding C10-penumbra-half-angle, proposed_fixes/C10-penumbra-half-angle.diff). When /repo is fixed the witness stops checking and light_geometry has to be restated with the two half-angles.",
@@ -115,8 +118,8 @@ RULE = ("correspondence: random listener lists (1-6 listeners out of 14 kinds) x
         "plus LightListener.__call__ vs the translated formulas on state vectors -3..12 Earth radii behind the Earth, random and within 0 / 1 mm / 1 m / 1 km of the real umbra / penumbra boundary (exact +-1 agreement; non-trivial: in shadow); "
         "plus the real events_iterator (0-4 labels) / find_event (label, offset -1..7) over the real stream (non-trivial: something is returned). "
         "oracle: every clause as a predicate on real orbits (see samples); tolerances from the property text; families ordered cheap-first "
-        "(simultaneous crossings, steep-edged masks, large anomaly steps, backward, geosynchronous, numerical, ephemeris, analytical, visibility); when a proof / translator / "
-        "correspondence is broken in the quick tier the 10x sample is bounded (20 s per family, 150 s in total) and stops at the first failing input outside the open findings")
+        "(simultaneous crossings, steep-edged masks, shadow events of one trajectory expressed in / computed from EME2000, ITRF and station frames, large anomaly steps, backward, geosynchronous, numerical, ephemeris, analytical, visibility); when a proof / translator / "
+        "correspondence is broken in the quick tier the 10x sample is bounded (20 s per family and 150 s in total once 5 inputs of a family have run, 10 where the correspondence points) and stops at the first failing input outside the open findings")
 
 US = None  # timedelta(microseconds=1), set by _setup
 
@@ -137,6 +140,7 @@ def _setup():
 # =====================================================================================
 
 _station_counter = [0]
+_ephem_counter = [0]
 
 
 def gen_station(rng, inc=None, mask=False):
@@ -437,7 +441,8 @@ def shadow_state(o, sun_body):
     """0 = full light, 1 = penumbra (Sun partially hidden), 2 = umbra (Sun fully hidden), from apparent discs seen from the
     satellite: angular radii a (Sun), b (Earth), separation c."""
     import numpy as np
-    c = o.copy(form="cartesian")
+    # geocentric geometry, whatever frame the state is expressed in (a topocentric or orbit-attached frame has its origin elsewhere)
+    c = o.copy(form="cartesian", frame="EME2000")
     r = np.array(c[:3], dtype=float)
     s = np.array(sun_body.propagate(o.date).copy(frame=c.frame, form="cartesian")[:3], dtype=float)
     Re = c.frame.center.body.r
@@ -455,7 +460,7 @@ def shadow_state(o, sun_body):
     return 0
 
 
-def check_shadow(out, blocks, L, propagate, desc):
+def check_shadow(out, blocks, L, propagate, desc, family=None):
     from datetime import timedelta
     from beyond.env.solarsystem import get_body
     sun = get_body("Sun")
@@ -471,7 +476,7 @@ def check_shadow(out, blocks, L, propagate, desc):
             out.tally(f"shadow:{L.type}")
             entry = "entry" in o.event.info
             if a == b or (b != entry):
-                out.fail(f"shadow:{L.type}", f"{o.event.info} does not agree with the independent conical shadow computation within {tol} s",
+                out.fail(family or f"shadow:{L.type}", f"{o.event.info} does not agree with the independent conical shadow computation within {tol} s",
                          dict(desc, event=str(o.date), label=o.event.info), observed=[a, b], expected=[not entry, entry])
 
 
@@ -515,9 +520,9 @@ def build_listeners(specs, sta):
     return out
 
 
-def gen_step(rng, P):
-    """sampling step in seconds: between 1/200 and 1/25 of a period"""
-    return round(rng.uniform(P / 200, P / 25), rng.choice([0, 3, 6]))
+def gen_step(rng, P, big=True):
+    """sampling step in seconds: between 1/200 (quick tier: 1/90) and 1/25 of a period"""
+    return round(rng.uniform(P / (200 if big else 90), P / 25), rng.choice([0, 3, 6]))
 
 
 def gen_spec(rng, mode, kind, big=True):
@@ -526,23 +531,24 @@ def gen_spec(rng, mode, kind, big=True):
     sp = {"mode": mode, "orbit": o}
     if mode == "analytical":
         sp["listeners"], sp["station"] = gen_listeners(rng, o)
-        sp["start_s"], sp["span_s"], sp["step_s"] = rng.uniform(-0.5, 0.5) * P, P * rng.uniform(1.0, 1.6), gen_step(rng, P)
+        sp["start_s"], sp["span_s"], sp["step_s"] = rng.uniform(-0.5, 0.5) * P, P * rng.uniform(1.0, 1.6), gen_step(rng, P, big)
     elif mode == "backward":
         sp["listeners"], sp["station"] = gen_listeners(rng, o, with_station=kind == "leo")
-        sp["start_s"], sp["span_s"], sp["step_s"] = 0.0, -P * (2.5 if kind == "leo" else 1.3), -gen_step(rng, P)
+        sp["start_s"], sp["span_s"], sp["step_s"] = 0.0, -P * (2.5 if kind == "leo" else 1.3), -gen_step(rng, P, big)
     elif mode == "ephem":
         sp["listeners"], sp["station"] = gen_listeners(rng, o)
-        sp["estep_s"] = P / rng.uniform(60, 120)
-        sp["emode"] = rng.choice(["nostep", "step", "dates"])
-        sp["start_s"], sp["span_s"], sp["step_s"] = 8 * sp["estep_s"], 1.5 * P - 16 * sp["estep_s"], gen_step(rng, P)
+        sp["estep_s"] = P / (rng.uniform(60, 120) if big else rng.uniform(45, 75))
+        sp["emode"] = ["nostep", "step", "dates"][_ephem_counter[0] % 3]    # (cycled: every tier sees the stored-points form first)
+        _ephem_counter[0] += 1
+        sp["start_s"], sp["span_s"], sp["step_s"] = 8 * sp["estep_s"], 1.5 * P - 16 * sp["estep_s"], gen_step(rng, P, big)
     elif mode == "numerical":
         sp["listeners"], sp["station"] = gen_listeners(rng, o, with_station=False)
         sp["nstep_s"] = P / 150
-        sp["start_s"], sp["span_s"], sp["step_s"] = 0.0, 1.2 * P, gen_step(rng, P)
+        sp["start_s"], sp["span_s"], sp["step_s"] = 0.0, 1.2 * P, gen_step(rng, P, big)
     elif mode == "visibility":
         sp["listeners"], sp["station"] = [], gen_station(rng, o["kep"][2], mask=rng.random() < 0.5)
-        # (quick tier: 1.5 to 2.5 revolutions, otherwise 2 to 4 — sample size only, same checks)
-        sp["start_s"], sp["span_s"], sp["step_s"] = 0.0, P * (rng.uniform(2, 4) if big else rng.uniform(1.5, 2.5)), round(rng.uniform(30, 120), 3)
+        # (quick tier: 1.2 to 1.8 revolutions at 60-120 s, otherwise 2 to 4 at 30-120 s — sample size only, same checks)
+        sp["start_s"], sp["span_s"], sp["step_s"] = 0.0, P * (rng.uniform(2, 4) if big else rng.uniform(1.2, 1.8)), round(rng.uniform(30, 120) if big else rng.uniform(60, 120), 3)
     elif mode == "geosync":
         # inclined (eccentric) geosynchronous orbit seen from a station inside its ground-track loop: always in view,
         # the elevation has maxima AND minima while in view
@@ -552,7 +558,7 @@ def gen_spec(rng, mode, kind, big=True):
         sp["station"] = {"under_track": [rng.uniform(-12, 12), rng.uniform(-12, 12)], "latlonalt": None, "mask": None}
         sp["listeners"] = [["signal"], ["max"], ["radvel", True]]
         rng.shuffle(sp["listeners"])
-        sp["start_s"], sp["span_s"], sp["step_s"] = 0.0, P * rng.uniform(1.1, 2.2), round(rng.uniform(300, 900), 3)
+        sp["start_s"], sp["span_s"], sp["step_s"] = 0.0, P * (rng.uniform(1.1, 2.2) if big else rng.uniform(1.1, 1.5)), round(rng.uniform(300, 900) if big else rng.uniform(600, 900), 3)
     elif mode == "anomaly-large-step":
         # sampling steps between 1.2 and 1.9 rad of anomaly: still < 2 rad, so every genuine crossing is seen by the guard
         step = round(P * rng.uniform(1.2, 1.9) / (2 * math.pi), 3)
@@ -579,6 +585,13 @@ def gen_spec(rng, mode, kind, big=True):
         rng.shuffle(Ls)
         sp["listeners"], sp["station"] = Ls, None
         sp["start_s"], sp["span_s"], sp["step_s"] = rng.uniform(-0.5, 0.5) * P, P * rng.uniform(1.05, 1.3), round(rng.uniform(P / 60, P / 25), 3)
+    elif mode == "shadow-frames":
+        # the same trajectory expressed in frames whose origin is not the Earth's centre (a station's topocentric frame) or
+        # that rotate (ITRF), watched by LightListener(frame=None) and by listeners with an explicit frame
+        sp["listeners"] = []
+        sp["station"] = gen_station(rng, o["kep"][2])
+        sp["estep_s"] = round(P / (rng.uniform(40, 70) if big else rng.uniform(25, 35)), 3)
+        sp["start_s"], sp["span_s"], sp["step_s"] = 0.0, P * rng.uniform(1.05, 1.25), sp["estep_s"]
     elif mode == "steep-mask":
         # a mask with two steep edges placed on the azimuth track of a pass: the satellite goes behind the rising edge while its
         # elevation still increases, and reappears from the falling edge while it decreases — d(elevation - mask)/dt and the
@@ -707,7 +720,23 @@ def run_spec(out, sp):
             kw = dict(start=start, stop=stop, step=timedelta(seconds=sp["step_s"]))
         else:
             kw = dict(dates=list(Date.range(start, stop, timedelta(seconds=sp["step_s"]))))
-        run_stream(out, eph, "ephem", Ls, kw, desc, propagate=eph.propagate)
+        stream, blocks = run_stream(out, eph, "ephem", Ls, kw, desc, propagate=eph.propagate)
+        if sp["emode"] == "nostep":
+            # the same walk over the stored points, started strictly inside the ephemeris at the first stored point AFTER an
+            # event: the stream is the tail of the first one, it begins with that point — nothing dated before `start`
+            sig = lambda st: [(o.date._mjd, o.event.info if o.event else None) for o in st]
+            k = next((i for i in range(2, len(blocks)) if blocks[i][0]), None)
+            if k is not None:
+                s_next = blocks[k][1]
+                tail = [blocks[k][1]] + [o for b in blocks[k + 1:] for o in b[0] + [b[1]]]
+                got = list(eph.iter(start=s_next.date, stop=stop, listeners=Ls))
+                out.count(key=("ephem-start-inside", desc["epoch"]), kind="ephem-start-inside")
+                if sig(got) != sig(tail):
+                    out.fail("ephem:start-inside", "Ephem.iter started at a stored point inside the ephemeris: the stream is not the tail of the full one "
+                             "(events of the interval before `start` emitted, or dated outside [start, stop])",
+                             dict(desc, start=str(s_next.date)), observed=sig(got)[:4], expected=sig(tail)[:4])
+    elif mode == "shadow-frames":
+        check_shadow_frames(out, orb, sta, sp, desc)
     elif mode == "numerical":
         from beyond.propagators.keplernum import KeplerNum
         from beyond.env.solarsystem import get_body
@@ -719,6 +748,45 @@ def run_spec(out, sp):
         check_visibility(out, orb, sta, kw, desc)
     else:
         raise ValueError(mode)
+
+
+def check_shadow_frames(out, orb, sta, sp, desc):
+    """umbra / penumbra events of one trajectory, given to the listeners in different frames: the events agree with the
+    independent (geocentric) shadow computation and with those found on the EME2000 ephemeris — the light value is a
+    function of the geocentric geometry only"""
+    from datetime import timedelta
+    from beyond.orbits.ephem import Ephem
+    from beyond.propagators import listeners as LS
+    eph0 = orb.ephem(start=orb.date, stop=timedelta(seconds=sp["span_s"]), step=timedelta(seconds=sp["estep_s"]))
+    variants = [("eme2000", eph0, None),
+                ("station-expressed", Ephem([q.copy(frame=sta) for q in eph0]), None),
+                ("itrf-expressed", Ephem([q.copy(frame="ITRF") for q in eph0]), None),
+                ("station-expressed:explicit-EME2000", Ephem([q.copy(frame=sta) for q in eph0]), "EME2000"),
+                ("explicit-ITRF", eph0, "ITRF"),
+                ("explicit-noncentral", eph0, sta)]
+    ref = None
+    for name, eph, frame in variants:
+        Ls = [LS.LightListener("umbra", frame=frame), LS.LightListener("penumbra", frame=frame)]
+        stream = list(eph.iter(listeners=Ls))
+        fam = "shadow-frame:" + name
+        blocks, cur = [], []
+        for o in stream:
+            if o.event:
+                cur.append(o)
+            else:
+                blocks.append((cur, o))
+                cur = []
+        evs = sorted(((o.date - orb.date).total_seconds(), o.event.info) for b in blocks for o in b[0])
+        for L in Ls:
+            check_shadow(out, blocks, L, eph.propagate, dict(desc, variant=name), family=fam)
+        if ref is None:
+            ref = evs
+        # same events as on the geocentric ephemeris (the interpolation in another frame moves the dates by far less than 1 ms)
+        ok = len(evs) == len(ref) and all(a[1] == b[1] and abs(a[0] - b[0]) <= 0.01 for a, b in zip(evs, ref))
+        out.count(key=("shadow-frame", name, desc["epoch"]), nontrivial=len(ref) > 0, kind="shadow-frame:" + name, events=min(len(evs), 9))
+        if not ok:
+            out.fail(fam, "umbra / penumbra events depend on the frame the trajectory is expressed in (or the listener computes in)",
+                     dict(desc, variant=name), observed=evs[:8], expected=ref[:8])
 
 
 def check_visibility(out, orb, sta, kw, desc):
@@ -791,6 +859,7 @@ def check_visibility(out, orb, sta, kw, desc):
 
 HUNT_FAMILY_CAP_S = 20.0     # widened oracle in the quick tier: time given to one family of inputs …
 HUNT_TOTAL_CAP_S = 150.0     # … and to all of them
+HUNT_MIN_INPUTS = 5          # … but every family gets at least this many inputs (twice as many where the correspondence points)
 
 
 def oracle(ctx, widened):
@@ -804,18 +873,21 @@ def oracle(ctx, widened):
     big = widened or ctx.thorough
     hunt = widened and not ctx.thorough
     kinds = ["leo", "molniya", "meo", "gto", "leo"]
-    plan = [("simultaneous", 8 if big else 1, None), ("steep-mask", 8 if big else 1, None), ("anomaly-large-step", 20 if big else 2, None),
+    plan = [("simultaneous", 8 if big else 1, None), ("steep-mask", 8 if big else 1, None), ("shadow-frames", 8 if big else 1, None), ("anomaly-large-step", 20 if big else 2, None),
             ("backward", 20 if big else 2, 0), ("geosync", 15 if big else 2, None), ("numerical", 15 if big else 1, 0),
-            ("ephem", 30 if big else 3, 1), ("analytical", 60 if big else 4, 0), ("visibility", 20 if big else 2, None)]
+            ("ephem", 30 if big else 2, 1), ("analytical", 60 if big else 2, 0), ("visibility", 20 if big else 1, None)]
+    hinted = None
     if hunt and any("visibility" in b for b in ctx.broken):
-        plan.sort(key=lambda x: x[0] != "visibility")     # the correspondence points at visibility: look there first
+        hinted = "visibility"
+        plan.sort(key=lambda x: x[0] != "visibility")     # the correspondence points at visibility: look there first (and longer)
     known = core.load_known()
     t_all = time.time()
     found = None
     for mode, n, off in plan:
         t_fam = time.time()
         for i in range(n):
-            if hunt and (found is not None or time.time() - t_fam > HUNT_FAMILY_CAP_S or time.time() - t_all > HUNT_TOTAL_CAP_S):
+            least = HUNT_MIN_INPUTS * (2 if hinted == mode else 1)
+            if hunt and (found is not None or (i >= least and (time.time() - t_fam > HUNT_FAMILY_CAP_S or time.time() - t_all > HUNT_TOTAL_CAP_S))):
                 out.tally(f"hunt-skipped:{mode}")
                 continue
             kind = "leo" if off is None else kinds[(i + off) % len(kinds)]
@@ -1117,13 +1189,25 @@ def translate_listeners(src):
 
 LIGHT_PREAMBLE = {   # the geometric inputs of LightListener.__call__, as the source must define them (replicated by `light_inputs`)
     "sun": 'get_body("Sun")',
-    "sun_orb": "sun.propagate(orb.date).copy(frame=self.frame)",
-    "orb": 'orb.copy(form="cartesian", frame=sun_orb.frame)',
     "x_sun": "np.array(sun_orb[:3])",
     "norm_x_sun": "np.linalg.norm(x_sun)",
     "x_sat": "np.array(orb[:3])",
     "norm_x_sat": "np.linalg.norm(x_sat)",
 }
+# which frame Sun and satellite are converted to: the recognised forms of the remaining assignments -> the frame used when
+# `self.frame is None` ("sun": the frame the Sun's own propagator works in; "orb": the frame the state is expressed in)
+LIGHT_FRAME_RULES = {
+    "sun": {"sun_orb": "sun.propagate(orb.date).copy(frame=self.frame)", "orb": 'orb.copy(form="cartesian", frame=sun_orb.frame)'},
+    "orb": {"frame": "orb.frame if self.frame is None else self.frame", "sun_orb": 'sun.propagate(orb.date).copy(form="cartesian", frame=frame)',
+            "orb": 'orb.copy(form="cartesian", frame=frame)'},
+}
+_light_rule = [None]
+
+
+def light_frame_rule():
+    if _light_rule[0] is None:
+        translate_light(os.path.join(core.REPO, "beyond", "propagators", "listeners.py"))
+    return _light_rule[0]
 
 
 def translate_light(path):
@@ -1144,9 +1228,11 @@ def translate_light(path):
         if not (isinstance(s, ast.Assign) and len(s.targets) == 1 and isinstance(s.targets[0], ast.Name)):
             raise Untranslatable("LightListener.__call__ preamble: " + ast.unparse(s))
         seen[s.targets[0].id] = ast.unparse(s.value)
-    want = {k: ast.unparse(ast.parse(v, mode="eval").body) for k, v in LIGHT_PREAMBLE.items()}
-    if seen != want:
+    norm = lambda d: {k: ast.unparse(ast.parse(v, mode="eval").body) for k, v in d.items()}
+    rule = next((r for r, extra in LIGHT_FRAME_RULES.items() if seen == norm(dict(LIGHT_PREAMBLE, **extra))), None)
+    if rule is None:
         raise Untranslatable(f"LightListener.__call__ preamble changed: {seen}")
+    _light_rule[0] = rule
 
     class Dot(ast.NodeTransformer):
         def visit_BinOp(self, n):
@@ -1212,11 +1298,16 @@ def extract(ctx):
     out.append("/-- text before ` = ` in `AnomalyListener.info`, per key of `AnomalyListener.ANOMALIES` -/")
     out.append("def anomalyLabels : List (String × String) := [" + ", ".join(f'("{k}", "{v}")' for k, v in labs) + "]")
     out.append("")
+    lpath = os.path.join(core.REPO, "beyond", "propagators", "listeners.py")
+    light_text = translate_light(lpath)
+    out.append("/-- `LightListener.__call__`: the frame Sun and satellite are converted to when `self.frame is None` — \"sun\": the frame of the")
+    out.append("Sun's own state (`sun.propagate(date)`), \"orb\": the frame the state handed to the listener is expressed in -/")
+    out.append(f'def lightFrameIfNone : String := "{_light_rule[0]}"')
+    out.append("")
     out.append("end BeyondVerif.Generated.ListenSrc")
     ch = core.write_if_changed(os.path.join(core.LEAN, "BeyondVerif", "Generated", "ListenSrc.lean"), "\n".join(out) + "\n")
     from harness import py2lean
-    lpath = os.path.join(core.REPO, "beyond", "propagators", "listeners.py")
-    ch2 = py2lean.instantiate(core.LEAN, "LightSrc", translate_light(lpath), "beyond/propagators/listeners.py (LightListener.__call__)")
+    ch2 = py2lean.instantiate(core.LEAN, "LightSrc", light_text, "beyond/propagators/listeners.py (LightListener.__call__)")
     return (["Generated/ListenSrc.lean"] if ch else []) + ch2
 
 
@@ -1497,7 +1588,7 @@ def gen_case(rng):
     # the states' own frame: latitude (or, when a frame-less anomaly listener is present, the anomaly in fixed point),
     # its rate, radial velocity, (mask: unused)
     own = (own_anom if own_anom is not None else gen_poly(rng, lo, hi, ts), gen_poly(rng, lo, hi, ts, 2), gen_poly(rng, lo, hi, ts, 2), [0])
-    mode = rng.choice(["dates", "dates", "range", "ephem-dates", "ephem-step", "ephem-nostep"])
+    mode = rng.choice(["dates", "dates", "range", "ephem-dates", "ephem-step", "ephem-nostep", "ephem-inside"])
     steps = {ts[i + 1] - ts[i] for i in range(len(ts) - 1)}
     if mode in ("range", "ephem-step") and (len(steps) != 1 or (mode == "ephem-step" and ts[1] < ts[0])):
         mode = "dates"
@@ -1529,6 +1620,11 @@ def real_stream(env, ts, specs, mode, history, own):
         # stored points: the samples themselves (nostep) or a coarser grid around them
         if mode == "ephem-nostep":
             src = env.StubEphem(dates, chans)
+        elif mode == "ephem-inside":
+            # stored points ahead of `start` and beyond `stop`: they are not part of the iteration
+            lo, hi = min(ts), max(ts)
+            gap = max(1, abs(ts[1] - ts[0]))
+            src = env.StubEphem([env.date(lo - 2 * gap - 1), env.date(lo - gap)] + dates + [env.date(hi + gap), env.date(hi + 3 * gap)], chans)
         else:
             lo, hi = min(ts), max(ts)
             src = env.StubEphem([env.date(lo - 5), env.date((lo + hi) // 2), env.date(hi + 5)], chans)
@@ -1547,7 +1643,7 @@ def real_stream(env, ts, specs, mode, history, own):
             return src.iter(start=dates_[0], stop=dates_[-1], step=step, listeners=arg)
         if mode == "ephem-step":
             return src.iter(start=dates_[0], stop=dates_[-1], step=step, listeners=arg)
-        if mode == "ephem-nostep":
+        if mode in ("ephem-nostep", "ephem-inside"):
             return src.iter(start=dates_[0], stop=dates_[-1], listeners=arg)
         raise ValueError(mode)
     if history == "reuse":
@@ -1565,11 +1661,47 @@ def light_inputs(orb, frame=None):
     import numpy as np
     from beyond.env.solarsystem import get_body
     sun = get_body("Sun")
-    sun_orb = sun.propagate(orb.date).copy(frame=frame)
-    orb = orb.copy(form="cartesian", frame=sun_orb.frame)
+    if light_frame_rule() == "sun":
+        sun_orb = sun.propagate(orb.date).copy(frame=frame)
+        orb = orb.copy(form="cartesian", frame=sun_orb.frame)
+    else:
+        frame = orb.frame if frame is None else frame
+        sun_orb = sun.propagate(orb.date).copy(form="cartesian", frame=frame)
+        orb = orb.copy(form="cartesian", frame=frame)
     x_sun = np.array(sun_orb[:3])
     x_sat = np.array(orb[:3])
     return float(sun.r), float(orb.frame.center.body.r), float(np.linalg.norm(x_sun)), float(np.linalg.norm(x_sat)), float(x_sun @ x_sat)
+
+
+_lsta = []
+
+
+def _light_station():
+    if not _lsta:
+        _lsta.append(build_station({"latlonalt": [43.6, 1.44, 150.0], "mask": None}))
+    return _lsta[0]
+
+
+def _near_boundary(env, o, typ):
+    """the real value changes within 1 m of this position (perpendicular to the Sun direction)"""
+    import numpy as np
+    from beyond.orbits import Orbit
+    r = np.array(o[:3], dtype=float)
+    s = np.array(light_sun_pos(o), dtype=float)
+    u = s / np.linalg.norm(s)
+    perp = r - (r @ u) * u
+    n = np.linalg.norm(perp)
+    if n == 0:
+        return False
+    perp /= n
+    L = env.LS.LightListener(typ)
+    vals = {float(L(Orbit(list(r + d * perp) + [0.0, 0.0, 0.0], o.date, "cartesian", o.frame, None))) for d in (-1.0, 1.0)}
+    return len(vals) == 2
+
+
+def light_sun_pos(o):
+    from beyond.env.solarsystem import get_body
+    return get_body("Sun").propagate(o.date).copy(frame=o.frame, form="cartesian")[:3]
 
 
 def gen_light_states(rng, n):
@@ -1605,7 +1737,7 @@ def gen_light_states(rng, n):
             lo, hi = 0.0, 1.3 * Re     # value -1 on the axis (behind the Earth), +1 far from it
             if L(state(along, lo)) > 0 or L(state(along, hi)) < 0:
                 continue
-            for _ in range(36):
+            for _ in range(33):
                 mid = 0.5 * (lo + hi)
                 if L(state(along, mid)) < 0:
                     lo = mid
@@ -1767,7 +1899,7 @@ def correspondence(ctx):
     rng = ctx.rng
     # ---- TopocentricFrame.visibility
     vcases = [(ts, "witness", specs, sta, len(specs), "true", False, "dates", "fresh", own) for ts, specs, sta, own, _ in _WITNESS_VIS]
-    vcases += [gen_vis_case(rng) for _ in range(ctx.n(1000, 40000))]
+    vcases += [gen_vis_case(rng) for _ in range(ctx.n(800, 32000))]
     vlines = [vis_line(c[0], c[2], c[3], c[5], c[6], c[9]) for c in vcases]
     vmodel = core.Driver("C10").run(vlines)
     for w, m in zip(_WITNESS_VIS, vmodel):
@@ -1791,7 +1923,7 @@ def correspondence(ctx):
                       "history": history, "own": own, "line": line}, observed=real, expected=m)
         out.sample({"line": line[:200], "reply": m[:200]}, limit=1)
     cases = []
-    for _ in range(ctx.n(2000, 100000)):
+    for _ in range(ctx.n(1500, 80000)):
         cases.append(gen_case(rng))
     lines = [case_line(c[0], c[2], c[5]) for c in cases]
     # _bisect alone, on the real Speaker
@@ -1819,7 +1951,7 @@ def correspondence(ctx):
         out.sample({"line": line[:200], "reply": m[:200]}, limit=3)
     # ---- events_iterator / find_event on the real stream
     qcases = []
-    for _ in range(ctx.n(500, 20000)):
+    for _ in range(ctx.n(400, 20000)):
         c = gen_case(rng)
         qcases.append((gen_query(rng, c[2]), c[0], c[2], c[5]))
     qlines = [query_line(*qc) for qc in qcases]
@@ -1834,13 +1966,25 @@ def correspondence(ctx):
             out.fail("events-query", "events_iterator / find_event over the real stream differs from the model", {"query": list(q), "samples": ts, "specs": specs, "own": own, "line": line},
                      observed=real, expected=m)
     # ---- LightListener.__call__ as a function of the geometry (formulas translated from the source: Generated/LightSrc)
-    lstates = gen_light_states(rng, ctx.n(150, 3000))
+    lstates = gen_light_states(rng, ctx.n(100, 3000))
     linp = [light_inputs(o) for o, _, _ in lstates]
     llines = [f"c10l {1 if typ == 'penumbra' else 0} " + " ".join(core.f2b(x) for x in inp) for (o, typ, how), inp in zip(lstates, linp)]
     for (o, typ, how), inp, line, m in zip(lstates, linp, llines, core.Driver("C10").run(llines)):
         real = float(env.LS.LightListener(typ)(o))
         mv = core.b2f(m) if m != "bad-op" else None
         out.count(key=("light", line), nontrivial=real < 0, kind="light-value", light=f"{typ}:{how}:{'shadow' if real < 0 else 'lit'}")
+        if True:
+            # the same state handed over in another frame: the value depends on the geocentric geometry only
+            # (positions closer than 1 m to the shadow boundary excepted: the change of frame moves the last bits)
+            alt = ["ITRF", "TEME", "EME2000", "station"][len(out.keys) % 4]
+            o2 = o.copy(frame=_light_station() if alt == "station" else alt)
+            v2 = float(env.LS.LightListener(typ)(o2))
+            near = v2 != real and how == "boundary" and _near_boundary(env, o, typ)
+            out.count(key=("light-frame", line, alt), nontrivial=real < 0, kind="light-frame", light_frame=alt)
+            if v2 != real and not near:
+                out.fail("light-frame", "LightListener(frame=None) gives another value for the same state expressed in another frame",
+                         {"light": True, "type": typ, "date": str(o.date), "pos": [float(x) for x in o[:3]], "frame": str(o.frame), "expressed_in": alt, "line": line},
+                         observed=v2, expected=real)
         if mv != real:
             out.fail("light-value", "LightListener.__call__ differs from the formulas translated from its source (Generated/LightSrc)",
                      {"light": True, "type": typ, "date": str(o.date), "pos": [float(x) for x in o[:3]], "frame": str(o.frame), "inputs": list(inp), "line": line},
